@@ -235,6 +235,7 @@ class VerifyRun:
         self.algo = {}
         self.sums = {}
         self.mustnot = {}
+        self.failing = {}
         self.nontrivial_fn = lambda s: s["allow"] == ["err"] or bool(s["mustnot"])
 
     def on_scn(self, s):
@@ -247,6 +248,7 @@ class VerifyRun:
             self.algo[i] = set()
             self.sums[i] = set()
             self.mustnot[i] = set(s["mustnot"])
+            self.failing[i] = set(s.get("failing", []))
             if self.nontrivial_fn(s):
                 self.rep.nontrivial(k)
             if i % 1987 == 3:
@@ -273,6 +275,9 @@ class VerifyRun:
         bad = (set(r.get("ran", [])) | set(r.get("written", []))) & self.mustnot[i]
         if bad:
             rep.mismatch({"kind": "inspection_ran_before_checks", "names": sorted(bad)}, mk)
+        ranbad = set(r.get("ran", [])) & self.failing.get(i, set())
+        if o == "ok" and ranbad:
+            rep.mismatch({"kind": "inspection_failed_but_verification_passed", "names": sorted(ranbad)}, mk)
         if o == "ok" and self.sums[i]:
             if norm_sum(r.get("sum")) not in self.sums[i] or r.get("sum", {}).get("name", "") != "":
                 rep.mismatch({"kind": "summary", "actual": r.get("sum")}, mk)
